@@ -13,6 +13,8 @@ func init() {
 	modelTable["github.com/Azure/retry/exponential.New"] = "ExpNew"
 	modelTable["github.com/Azure/retry/exponential.WithPolicy"] = "WithPolicy"
 	modelTable["(*github.com/Azure/retry/exponential.Backoff).Retry"] = "BackoffRetry"
+	modelTable["(*sync.Pool).Get"] = "SyncPoolGet"
+	modelTable["(*sync.Pool).Put"] = "SyncPoolPut"
 	modelTable["zombiezen.com/go/sqlite/sqlitex.Execute"] = "SqlitexExecute"
 	modelTable["zombiezen.com/go/sqlite/sqlitex.ExecuteTransient"] = "SqlitexExecute"
 	modelTable["zombiezen.com/go/sqlite/sqlitex.Transaction"] = "SqlitexTransaction"
